@@ -17,7 +17,7 @@ TABLE = {
                 theorems=["C11_build_protects", "C11_history_protects", "C11_user_write_protected", "C11_user_file_untouched", "C11_check_readonly", "C11_record_only_own_target", "C11_queries_readonly"]),
     "C14": dict(profiles=["ifcreate", "always"], want={"fresh", "once", "noop", "reason"},
                 theorems=["C14_ifcreate_existing_errors", "C14_ifcreate_absent_ok", "C14_always_newer", "C14_newer_dep_is_dirty", "C14_ifcreate_or_always_not_clean"]),
-    "C17": dict(profiles=["general", "stamp"], want={"query", "fresh"},
+    "C17": dict(profiles=["general", "stamp", "override"], want={"query", "fresh"},
                 theorems=["C17_readonly", "C17_disjoint", "C17_cover", "C17_ood_walk_readonly", "C17_ood_agrees_with_builder"]),
 }
 
